@@ -41,6 +41,7 @@ type ExObs struct {
 	DAct     float64            `json:"dialer_active"`
 	DTot     float64            `json:"dialer_total"`
 	Shutdown bool               `json:"shutdown"` // the case shut the proxy down while the exchange was in progress
+	Retried  bool               `json:"retried"`
 	Err      string             `json:"err"` // harness-level problem (rig could not be driven as planned)
 	Raw      string             `json:"raw"` // first bytes of the last reply (diagnostics)
 }
@@ -144,8 +145,19 @@ func (e *Env) End(c net.Conn, co ClientObs) {
 	e.O.Closed = st == "closed" || st == "reset"
 }
 
-// RunExchangeCase runs one case against a fresh proxy.
+// RunExchangeCase runs one case against a fresh proxy.  A case that ran into one of the harness' own time limits
+// (a loaded machine, not an observation of the proxy) is run once more.
 func RunExchangeCase(cs ExCase) *ExObs {
+	o := runExchangeCaseOnce(cs)
+	if strings.Contains(o.Err, "timed out") || strings.Contains(o.Err, "dial proxy") {
+		o2 := runExchangeCaseOnce(cs)
+		o2.Retried = true
+		return o2
+	}
+	return o
+}
+
+func runExchangeCaseOnce(cs ExCase) *ExObs {
 	o := &ExObs{Name: cs.Name, Leaf: cs.Leaf, Class: cs.Class}
 	opt := cs.Opt
 	e := &Env{O: o}
